@@ -104,11 +104,19 @@ theorem after_fully_handled_never (decls : List Decl) (events : List Event) :
       rw [hm'] at hl
       exact ih mem' _ hf' (fun e' he' => hdel e' (by simp [he'])) l hl i n hin hres
 
-/-- The guard of the partial theorem: while the object is being (re)handled, the resume handler keeps
-    matching it (filters; opt-in when the object is being deleted) and the last-handled state stays in place. -/
+/-- The guard of the partial theorems, for one event: the last-handled state stays in place (nobody
+    wipes the annotation), and the resume handler keeps matching the object (filters; opt-in when the
+    object is being deleted). -/
 def Stable (d : Decl) (e : Event) : Prop :=
-  e.deleted = false ∧ e.oldAbsent = false ∧ e.matchF d.id = true ∧
-  (e.marked = true → d.gate.deletedOptIn = true)
+  e.oldAbsent = false ∧ e.matchF d.id = true ∧ (e.marked = true → d.gate.deletedOptIn = true)
+
+/-- … demanded only of the events processed while the object is not yet fully handled in this process
+    (afterwards nothing is demanded: `after_fully_handled_never`). A guard over the run itself. -/
+def StableWhileOpen (decls : List Decl) (d : Decl) : Option Mem → Store → List Event → Prop
+  | _, _, [] => True
+  | m, P, e :: rest =>
+      ((recall m e).fullyHandled = false → Stable d e) ∧
+      StableWhileOpen decls d (step decls m P e).mem (step decls m P e).P rest
 
 theorem reason_not_create (mem : Mem) (e : Event) (h : e.oldAbsent = false) :
     C05.detectReason (inOf mem e) ≠ .create := by
@@ -132,7 +140,7 @@ theorem stable_selected (decls : List Decl) (d : Decl) (hd : d ∈ decls)
     (hini : d.gate.initial = true) (hreason : d.gate.reason = none)
     (mem : Mem) (hn : mem.noticed = true) (hf : mem.fullyHandled = false) (e : Event) (hs : Stable d e) :
     d.id ∈ (cfgOf decls mem e).selected := by
-  obtain ⟨_, hold, hmatch, hopt⟩ := hs
+  obtain ⟨hold, hmatch, hopt⟩ := hs
   simp only [cfgOf, selectedOf, List.mem_map, List.mem_filter, Bool.and_eq_true]
   refine ⟨d, ⟨hd, ?_, hmatch⟩, rfl⟩
   have hcm : (causeOf mem e).marked = e.marked := rfl
@@ -146,7 +154,7 @@ theorem stable_selected (decls : List Decl) (d : Decl) (hd : d ∈ decls)
   · simp [hopt hm]
 
 /-- FULL STATEMENT (property): each resume handler runs to completion at most once per object per
-    operator process. PROVED HERE under `Stable` (see `flipflop_reruns_witness` for why the guard is
+    operator process. PROVED HERE under `StableWhileOpen` (see `flipflop_reruns_witness` for why the guard is
     needed: the code does re-run a finished resume handler whose record was purged while a sibling was
     still pending and the handler temporarily stopped matching). -/
 theorem resume_never_again_partial (decls : List Decl) (d : Decl) (hd : d ∈ decls)
@@ -154,14 +162,21 @@ theorem resume_never_again_partial (decls : List Decl) (d : Decl) (hd : d ∈ de
     (huniq : ∀ d' ∈ decls, d'.id = d.id → d' = d) (events : List Event) :
     ∀ (mem : Mem) (P : Store), UniformOn (decls.map (·.id)) P → mem.noticed = true →
       (mem.fullyHandled = true ∨ ∃ r, P d.id = some r ∧ r.finished = true) →
-      (∀ e ∈ events, Stable d e) →
+      (∀ e ∈ events, e.deleted = false) →
+      StableWhileOpen decls d (some mem) P events →
       ∀ l ∈ run decls (some mem) P events, ∀ n, (d.id, n) ∉ l := by
   induction events with
-  | nil => intro mem P _ _ _ _ l hl; simp [run] at hl
+  | nil => intro mem P _ _ _ _ _ l hl; simp [run] at hl
   | cons e rest ih =>
-    intro mem P hu hn hinv hst l hl n
-    have hse : Stable d e := hst e (by simp)
-    have hde : e.deleted = false := hse.1
+    intro mem P hu hn hinv hdel hst l hl n
+    by_cases hf0 : mem.fullyHandled = true
+    · intro hin
+      exact after_fully_handled_never decls (e :: rest) mem P hf0 hdel l hl d.id n hin
+        (fun d' hd' hid => by rw [huniq d' hd' hid]; exact hini)
+    have hf0' : mem.fullyHandled = false := by simpa using hf0
+    have hse : Stable d e := hst.1 (by simp [recall, hf0'])
+    have hst2 := hst.2
+    have hde : e.deleted = false := hdel e (by simp)
     simp only [run, List.mem_cons] at hl
     have hsub := selected_sub_owned decls mem e
     rcases hl with rfl | hl
@@ -180,8 +195,8 @@ theorem resume_never_again_partial (decls : List Decl) (d : Decl) (hd : d ∈ de
       by_cases hs : e.suppressed = true
       · have : step decls (some mem) P e = { mem := some mem, P := P, invoked := [], closed := false } := by
           unfold step; simp [hs, hde, recall]
-        rw [this] at hl
-        exact ih mem P hu hn hinv (fun e' he' => hst e' (by simp [he'])) l hl n
+        rw [this] at hl hst2
+        exact ih mem P hu hn hinv (fun e' he' => hdel e' (by simp [he'])) hst2 l hl n
       · have hstep : step decls (some mem) P e =
             { mem := some { mem with fullyHandled := mem.fullyHandled ||
                               (cycle (cfgOf decls mem e) P e.now e.now1 e.exec).closed },
@@ -189,12 +204,12 @@ theorem resume_never_again_partial (decls : List Decl) (d : Decl) (hd : d ∈ de
               invoked := (cycle (cfgOf decls mem e) P e.now e.now1 e.exec).invoked,
               closed := (cycle (cfgOf decls mem e) P e.now e.now1 e.exec).closed } := by
           unfold step; simp [hs, hde, recall]
-        rw [hstep] at hl
+        rw [hstep] at hl hst2
         have hu' : UniformOn (decls.map (·.id)) (cycle (cfgOf decls mem e) P e.now e.now1 e.exec).P' :=
           uniform_preserved (cfgOf decls mem e) P e.now e.now1 e.exec hsub hu
         refine ih { mem with fullyHandled := mem.fullyHandled ||
                       (cycle (cfgOf decls mem e) P e.now e.now1 e.exec).closed } _ hu' hn ?_
-                 (fun e' he' => hst e' (by simp [he'])) l hl n
+                 (fun e' he' => hdel e' (by simp [he'])) hst2 l hl n
         show (mem.fullyHandled || (cycle (cfgOf decls mem e) P e.now e.now1 e.exec).closed) = true ∨ _
         by_cases hf : mem.fullyHandled = true
         · left; simp [hf]
@@ -224,7 +239,8 @@ theorem completed_never_again_partial (decls : List Decl) (d : Decl) (hd : d ∈
     (mem : Mem) (P : Store) (hu : UniformOn (decls.map (·.id)) P) (e : Event) (rest : List Event)
     (hde : e.deleted = false) (n : Nat)
     (hinv : (d.id, n) ∈ (step decls (some mem) P e).invoked) (hfin : (e.exec d.id n).final = true)
-    (hst : ∀ e' ∈ rest, Stable d e') :
+    (hdel : ∀ e' ∈ rest, e'.deleted = false)
+    (hst : StableWhileOpen decls d (step decls (some mem) P e).mem (step decls (some mem) P e).P rest) :
     ∀ l ∈ run decls (step decls (some mem) P e).mem (step decls (some mem) P e).P rest,
       ∀ k, (d.id, k) ∉ l := by
   have hsub := selected_sub_owned decls mem e
@@ -242,11 +258,11 @@ theorem completed_never_again_partial (decls : List Decl) (d : Decl) (hd : d ∈
         invoked := (cycle (cfgOf decls mem e) P e.now e.now1 e.exec).invoked,
         closed := (cycle (cfgOf decls mem e) P e.now e.now1 e.exec).closed } := by
     unfold step; simp [hs, hde, recall]
-  rw [hstep] at hinv ⊢
+  rw [hstep] at hinv hst ⊢
   simp only at hinv
   refine resume_never_again_partial decls d hd hini hreason huniq rest
     { mem with fullyHandled := mem.fullyHandled || (cycle (cfgOf decls mem e) P e.now e.now1 e.exec).closed } _
-    (uniform_preserved (cfgOf decls mem e) P e.now e.now1 e.exec hsub hu) hn ?_ hst
+    (uniform_preserved (cfgOf decls mem e) P e.now e.now1 e.exec hsub hu) hn ?_ hdel hst
   show (mem.fullyHandled || (cycle (cfgOf decls mem e) P e.now e.now1 e.exec).closed) = true ∨ _
   by_cases hc : (cycle (cfgOf decls mem e) P e.now e.now1 e.exec).closed = true
   · left; simp [hc]
@@ -264,30 +280,115 @@ theorem eligible_selected (decls : List Decl) (d : Decl) (hd : d ∈ decls)
   constructor
   · simp [causeOf, C05.detect, C05.detectReason, inOf, recall, hl, hdel, hm, hold, hdiff]
   · exact stable_selected decls d hd hini hreason (recall none e) (by simp [recall, hl]) (by simp [recall]) e
-      ⟨hdel, hold, hmatch, by simp [hm]⟩
+      ⟨hold, hmatch, by simp [hm]⟩
+
+/-- … and (all-at-once lifecycle, nothing recorded for it yet, positive limits) it is actually invoked
+    in that first cycle, as the first attempt. -/
+theorem eligible_invoked (decls : List Decl) (d : Decl) (hd : d ∈ decls)
+    (hini : d.gate.initial = true) (hreason : d.gate.reason = none) (e : Event)
+    (hl : e.byListing = true) (hdel : e.deleted = false) (hm : e.marked = false)
+    (hold : e.oldAbsent = false) (hdiff : e.diffNonEmpty = false) (hmatch : e.matchF d.id = true)
+    (hs : e.suppressed = false) (hlc : e.lifecycle = .allAtOnce)
+    (P : C02.Store) (hP : P d.id = none)
+    (hto : ∀ t, (e.limits d.id).timeout = some t → 0 < t)
+    (hre : ∀ n, (e.limits d.id).retries = some n → 0 < n) :
+    (d.id, 0) ∈ (step decls none P e).invoked := by
+  obtain ⟨hres, hsel⟩ := eligible_selected decls d hd hini hreason e hl hdel hm hold hdiff hmatch
+  have hreason' : (cfgOf decls (recall none e) e).reason = "resume" := by
+    show reasonStr (causeOf (recall none e) e).reason = "resume"
+    rw [hres]; rfl
+  have hinv := due_invoked_all_at_once (cfgOf decls (recall none e) e) P e.now e.now1 e.exec
+    (by rw [hreason']; decide) hlc d.id hsel (selected_sub_owned decls (recall none e) e d.id hsel)
+    (by simp [startRec, hP, fresh, Rec.awakened, Rec.sleeping, Rec.finished])
+    (by
+      simp only [startRec, hP, fresh, precheckFails]
+      show ((match (e.limits d.id).timeout with | some t => decide (e.now - e.now ≥ t) | none => false) ||
+            (match (e.limits d.id).retries with | some n => decide (0 ≥ n) | none => false)) = false
+      cases ht : (e.limits d.id).timeout with
+      | none =>
+        cases hn : (e.limits d.id).retries with
+        | none => rfl
+        | some n => have := hre n hn; simp; omega
+      | some t =>
+        have h1 := hto t ht
+        cases hn : (e.limits d.id).retries with
+        | none => simp; omega
+        | some n => have h2 := hre n hn; simp; exact ⟨by omega, by omega⟩)
+  rw [hP] at hinv
+  unfold step
+  simp only [hs, Bool.false_eq_true, if_false]
+  exact hinv
 
 /-- The guard is necessary — the code does repeat a completed resume handler: `r1` (label-filtered)
     completes, its sibling `r2` is still retrying; a label+spec edit makes `r1` stop matching while the
     reason turns to *update*, so `r1`'s finished record is purged with the superseded progress; the
     label flips back, `r1` is selected again with no record and runs a second time. -/
 theorem flipflop_reruns_witness :
-    ∃ (decls : List Decl) (events : List Event),
-      (∀ e ∈ events, e.deleted = false ∧ e.suppressed = false) ∧
-      run decls none (fun _ => none) events =
+    ∃ (decls : List Decl) (d : Decl) (mem : Mem) (e : Event) (rest : List Event),
+      -- the hypotheses of `completed_never_again_partial`, all but the guard:
+      d ∈ decls ∧ d.gate.initial = true ∧ d.gate.reason = none ∧
+      (∀ d' ∈ decls, d'.id = d.id → d' = d) ∧
+      UniformOn (decls.map (·.id)) (fun _ => none) ∧
+      e.deleted = false ∧ (∀ e' ∈ rest, e'.deleted = false) ∧
+      (d.id, 0) ∈ (step decls (some mem) (fun _ => none) e).invoked ∧ (e.exec d.id 0).final = true ∧
+      -- … and its conclusion fails: the completed resume handler is invoked again in the same process
+      (∃ l ∈ run decls (step decls (some mem) (fun _ => none) e).mem
+                (step decls (some mem) (fun _ => none) e).P rest, (d.id, 0) ∈ l) ∧
+      -- the whole history:
+      run decls (some mem) (fun _ => none) (e :: rest) =
         [[("r1", 0), ("r2", 0)], [("r2", 1)], [("r1", 0), ("r2", 2)]] := by
   let ok : Outcome := { final := true, delay := none, error := false, subrefs := [] }
   let again : Outcome := { final := false, delay := some 0, error := true, subrefs := [] }
-  let ev (byListing diff m1 : Bool) : Event :=
-    { byListing := byListing, deleted := false, marked := false, blocked := false, oldAbsent := false,
+  let ev (diff m1 : Bool) : Event :=
+    { byListing := false, deleted := false, marked := false, blocked := false, oldAbsent := false,
       diffNonEmpty := diff, suppressed := false,
       matchF := fun i => if i = "r1" then m1 else true,
       limits := fun _ => ⟨none, none⟩, lifecycle := .allAtOnce, now := 0, now1 := 0,
       exec := fun i _ => if i = "r2" then again else ok }
-  refine ⟨[⟨"r1", ⟨none, true, false⟩⟩, ⟨"r2", ⟨none, true, false⟩⟩],
-          [ev true false true, ev false true false, ev false false true], ?_, ?_⟩
-  · intro e he
-    simp only [List.mem_cons, List.mem_nil_iff, or_false] at he
-    rcases he with rfl | rfl | rfl <;> exact ⟨rfl, rfl⟩
-  · decide
+  refine ⟨[⟨"r1", ⟨none, true, false⟩⟩, ⟨"r2", ⟨none, true, false⟩⟩], ⟨"r1", ⟨none, true, false⟩⟩,
+          { noticed := true, fullyHandled := false },
+          ev false true, [ev true false, ev false true],
+          by simp, rfl, rfl, ?_, ⟨"resume", by intro i _ r h; simp at h⟩, rfl, ?_, by decide, by decide, ?_, by decide⟩
+  · intro d' hd' hid
+    simp only [List.mem_cons, List.mem_nil_iff, or_false] at hd'
+    rcases hd' with rfl | rfl
+    · rfl
+    · simp at hid
+  · intro e' he'
+    simp only [List.mem_cons, List.mem_nil_iff, or_false] at he'
+    rcases he' with rfl | rfl <;> rfl
+  · refine ⟨[("r1", 0), ("r2", 2)], ?_, by simp⟩
+    decide
+
+-- non-vacuity of the partial theorems: two resume handlers; "r1" completes at once, "r2" retries twice;
+-- an edit (update cause mixed in) and a re-listing-like repeat in between; the guard holds throughout,
+-- and "r1" is indeed never invoked again
+example :
+    let ok : Outcome := { final := true, delay := none, error := false, subrefs := [] }
+    let again : Outcome := { final := false, delay := some 0, error := true, subrefs := [] }
+    let ev (diff : Bool) (k : Nat) : Event :=
+      { byListing := false, deleted := false, marked := false, blocked := false, oldAbsent := false,
+        diffNonEmpty := diff, suppressed := false, matchF := fun _ => true,
+        limits := fun _ => ⟨none, none⟩, lifecycle := .allAtOnce, now := 0, now1 := 0,
+        exec := fun i n => if i = "r2" ∧ n < k then again else ok }
+    let decls : List Decl := [⟨"r1", ⟨none, true, false⟩⟩, ⟨"r2", ⟨none, true, false⟩⟩]
+    let mem : Mem := { noticed := true, fullyHandled := false }
+    run decls (some mem) (fun _ => none) [ev false 2, ev true 2, ev false 2, ev false 2]
+      = [[("r1", 0), ("r2", 0)], [("r2", 1)], [("r2", 2)], []] ∧
+    StableWhileOpen decls ⟨"r1", ⟨none, true, false⟩⟩
+      (step decls (some mem) (fun _ => none) (ev false 2)).mem
+      (step decls (some mem) (fun _ => none) (ev false 2)).P [ev true 2, ev false 2, ev false 2] := by
+  refine ⟨by decide, ?_⟩
+  simp [StableWhileOpen, Stable]
+
+-- non-vacuity of `eligible_invoked`: a listed, handled-before, unchanged object with one resume handler
+example :
+    let e : Event :=
+      { byListing := true, deleted := false, marked := false, blocked := false, oldAbsent := false,
+        diffNonEmpty := false, suppressed := false, matchF := fun _ => true,
+        limits := fun _ => ⟨some 5, some 3⟩, lifecycle := .allAtOnce, now := 7, now1 := 7,
+        exec := fun _ _ => { final := true, delay := none, error := false, subrefs := [] } }
+    (step [⟨"r", ⟨none, true, false⟩⟩] none (fun _ => none) e).invoked = [("r", 0)] ∧
+    (step [⟨"r", ⟨none, true, false⟩⟩] none (fun _ => none) e).closed = true := by decide
 
 end Kopf.C14
